@@ -93,15 +93,17 @@ def jsonCase (id : String) (payload : List Sexp) : List String :=
         | _ => []
       let facts : IfaceFacts := fun n => match factList.lookup n with | some x => x | none => (none, none)
       let fs := flatten t
+      -- the type-level directive is read only with -getset; the accessors PROMOTED from embedded shoot types count with or
+      -- without it (makeGetSet collects them in any case: the embedded types may have been generated by an earlier run)
+      let doc := if getset then doc else none
       let sw := typeSwitch doc
-      -- getsetMethods: the methods of the embedded accessor interfaces makeGetSet collected (only with -getset)
-      let promG := if getset then ((getIfaces sw.1 facts fs).map (·.2)).flatten else []
-      let promS := if getset then ((setIfaces sw.2 facts fs).map (·.2)).flatten else []
+      let promG := ((getIfaces sw.1 facts fs).map (·.2)).flatten
+      let promS := ((setIfaces sw.2 facts fs).map (·.2)).flatten
       let mk := jsonKeys getset tc sw promG promS fs
       -- spec: promoted accessors of the top-level embedded shoot types
       let embeds := topEmbeds t
-      let sG := if getset && typeGetter doc then (embeds.filterMap (fun e => (facts e).1)).flatten else []
-      let sS := if getset && typeSetter doc then (embeds.filterMap (fun e => (facts e).2)).flatten else []
+      let sG := if typeGetter doc then (embeds.filterMap (fun e => (facts e).1)).flatten else []
+      let sS := if typeSetter doc then (embeds.filterMap (fun e => (facts e).2)).flatten else []
       let sk := specKeys getset tc doc sG sS t
       let visM : Nat → String → Bool := fun d n => !genShadow t d n
       let visS : Nat → String → Bool := fun d n => !goShadowed t d n
